@@ -61,6 +61,9 @@ type Step struct {
 	// "addition" | "any") whose instance is handed back first
 	Which   string   `json:"which"`
 	Waiters int      `json:"waiters"`
+	// MidUpdate: a management call made while the waiters wait (starve); Flips: model changes of an emstorm step
+	MidUpdate *Update `json:"midupdate"`
+	Flips     int     `json:"flips"`
 	Reqs    []Req    `json:"reqs"`
 	Update  *Update  `json:"update"`
 	Updates []Update `json:"updates"`
@@ -178,6 +181,10 @@ func versionText(rs []RuleV) string {
 	return sb.String()
 }
 
+func isoRules() []RuleV {
+	return []RuleV{{"own", 1}, {"pa", 2}, {"pb", 3}, {"pc", 4}, {"pd", 5}, {"pe", 6}}
+}
+
 // isolation / capacity text
 func isoText() string {
 	return `rule "own" "tag-1" salience 9
@@ -190,6 +197,10 @@ begin
   }
   if failq(req.Id) { boom() }
   if condq(req.Id) { if notbool() { x = 1 } }
+  if leakq(req.Id) {
+    loc = req.Id
+    if notbool() { x = 1 }
+  }
   if retq(req.Id) { return req.Id }
 end
 rule "pa" "tag-2" salience 3 begin
@@ -206,6 +217,10 @@ rule "pc" "tag-4" salience 1 begin
 end
 rule "pd" "tag-5" salience 0 begin
   peek(req.Id, "kd", kd.Id)
+  if retq(req.Id) { return req.Id }
+end
+rule "pe" "tag-6" salience -1 begin
+  if seeq(req.Id) { peek(req.Id, "loc", loc) }
   if retq(req.Id) { return req.Id }
 end
 `
@@ -252,6 +267,18 @@ func (d *drv) api() map[string]interface{} {
 			return d.reqs[q] != nil && d.reqs[q].Fail == "cond"
 		},
 		"notbool": func() int64 { return 1 },
+		// leak: the rule binds a local from its request and then dies of a fault that only the rule-level recover
+		// catches; see: a rule reads that local name without ever binding it (it must not find anything)
+		"leakq": func(q int64) bool {
+			d.mu.Lock()
+			defer d.mu.Unlock()
+			return d.reqs[q] != nil && d.reqs[q].Fail == "leak"
+		},
+		"seeq": func(q int64) bool {
+			d.mu.Lock()
+			defer d.mu.Unlock()
+			return d.reqs[q] != nil && d.reqs[q].Fail == "see"
+		},
 		// chk(req.Id, holdq(req.Id)): the second argument blocks on a gate after the first one was evaluated;
 		// both must still belong to the same request when the call is made (positional arguments, C03 / C06)
 		"holdq": func(q int64) int64 {
@@ -363,11 +390,15 @@ func (d *drv) doUpdate(u *Update) {
 				pv = r
 			}
 		}()
+		text := versionText(u.Rules)
+		if d.sess.Kind == "isolation" || d.sess.Kind == "capacity" {
+			text = isoText() // these sessions re-install their one rule text (u.Rules lists its rules)
+		}
 		switch u.Kind {
 		case "full":
-			err = d.pool.UpdatePooledRules(versionText(u.Rules))
+			err = d.pool.UpdatePooledRules(text)
 		case "incr":
-			err = d.pool.UpdatePooledRulesIncremental(versionText(u.Rules))
+			err = d.pool.UpdatePooledRulesIncremental(text)
 		case "remove":
 			err = d.pool.RemoveRules(u.Names)
 		case "clear":
@@ -503,6 +534,9 @@ func (d *drv) starve(st *Step) {
 		if n == len(waiters) {
 			break
 		}
+	}
+	if st.MidUpdate != nil {
+		d.doUpdate(st.MidUpdate)
 	}
 	released := map[int64]bool{}
 	nEnded := func() int {
@@ -707,7 +741,7 @@ func runSession(s *Session, quiet time.Duration, seed int64) ([]obs.Event, bool)
 	atomic.StoreInt64(&d.model, int64(s.Model))
 	rules := s.Rules
 	if s.Kind == "isolation" || s.Kind == "capacity" {
-		rules = []RuleV{{"own", 1}, {"pa", 2}, {"pb", 3}, {"pc", 4}, {"pd", 5}}
+		rules = isoRules()
 	}
 	o.Emit(obs.Event{"ev": "pnew", "min": s.Min, "max": s.Max, "rules": rules, "model": s.Model})
 	tmo := time.Duration(s.Timeout) * time.Second
@@ -763,6 +797,44 @@ func runSession(s *Session, quiet time.Duration, seed int64) ([]obs.Event, bool)
 			case "starve":
 				d.gatePub = false
 				d.starve(st)
+			case "emstorm":
+				// the execution model is changed back and forth while two clients issue requests one after the other
+				d.gatePub = false
+				atomic.AddInt64(&d.storm, 1)
+				var sw sync.WaitGroup
+				stop := make(chan struct{})
+				sw.Add(1)
+				go func() {
+					defer sw.Done()
+					for k := 0; k < st.Flips; k++ {
+						select {
+						case <-stop:
+							return
+						default:
+						}
+						for _, m := range []int{3, 1} {
+							e := p.SetExecModel(m)
+							if e == nil {
+								atomic.StoreInt64(&d.model, int64(m))
+							}
+							o.Emit(obs.Event{"ev": "setmodel", "m": m, "ok": e == nil})
+						}
+					}
+				}()
+				var cw sync.WaitGroup
+				for w := 0; w < 2; w++ {
+					cw.Add(1)
+					go func(w int) {
+						defer cw.Done()
+						for i := w; i < len(st.Reqs); i += 2 {
+							d.request(&st.Reqs[i], s.CheckV)
+						}
+					}(w)
+				}
+				cw.Wait()
+				close(stop)
+				sw.Wait()
+				atomic.AddInt64(&d.storm, -1)
 			}
 		}
 		close(done)
